@@ -600,16 +600,20 @@ static inline struct ubuf *ubuf_block_split(struct ubuf *ubuf, int offset)
 static inline int ubuf_block_check_size(struct ubuf *ubuf,
                                         int *offset_p, int *size_p)
 {
-    if (*size_p == -1) {
-        if (*offset_p < 0)
-            *size_p = -*offset_p;
-        else {
-            if (unlikely(ubuf->mgr->signature != UBUF_ALLOC_BLOCK))
-                return UBASE_ERR_INVALID;
+    if (*offset_p < 0 || *size_p == -1) {
+        if (unlikely(ubuf->mgr->signature != UBUF_ALLOC_BLOCK))
+            return UBASE_ERR_INVALID;
 
-            struct ubuf_block *block = ubuf_block_from_ubuf(ubuf);
-            *size_p = block->total_size - *offset_p;
+        struct ubuf_block *block = ubuf_block_from_ubuf(ubuf);
+        /* callers iterate by adding to the offset: make it absolute so that
+         * a range starting from the end cannot wrap around to the start */
+        if (*offset_p < 0) {
+            *offset_p += block->total_size;
+            if (unlikely(*offset_p < 0))
+                return UBASE_ERR_INVALID;
         }
+        if (*size_p == -1)
+            *size_p = block->total_size - *offset_p;
     }
     return UBASE_ERR_NONE;
 }
